@@ -462,6 +462,14 @@ class Executor(object):
                 raise ContractMismatch('unknown lemma %s' % ln)
             st.pc.append(lemmas.statement(self, self.reg.lemmas[ln]))
             self.lemmas_used.add(ln)
+        for call in contract.uses_at:
+            from . import lemmas
+            ln = call.func.id
+            if ln not in self.reg.lemmas:
+                raise ContractMismatch('unknown lemma %s' % ln)
+            args = [self.cvalue(a, st, entry, None) for a in call.args]
+            st.pc.append(lemmas.instance_at(self, self.reg.lemmas[ln], args))
+            self.lemmas_used.add(ln)
         entry.pc = list(st.pc)
         result = NONE
         try:
@@ -504,6 +512,10 @@ class Executor(object):
         for pn, _ in list(contract.params) + list(contract.free):
             st.locals[pn] = entry.locals[pn]
         self._apply_ghost_updates(st, entry, contract, result)
+        for cl in contract.exit_hints:
+            t = self.ceval(cl.expr, st, entry, result)
+            self.oblige(st, cl.label, t, cl, kind='hint', note='proof hint at exit (proved, then assumed)')
+            self.assume(st, t)
         for cl in contract.ensures:
             self.oblige(st, cl.label, self.ceval(cl.expr, st, entry, result), cl, kind='post')
         self._check_frame(st, entry, contract, result)
@@ -998,6 +1010,11 @@ class Executor(object):
             return
         if kind == 'for':
             st.locals[ivar] = SV(TInt, Add(st.locals[ivar].t, IntC(1)))
+        for cl in (c.loop_hints.get(ordn, []) if c is not None else []):
+            st.locals['__i'] = st.locals.get(ivar, SV(TInt, IntC(0)))
+            t = self.ceval(cl.expr, st, self.entry, None, loop_entry=entry_loop)
+            self.oblige(st, 'loop%d.%s' % (ordn, cl.label), t, cl, kind='hint', note='proof hint (proved, then assumed)')
+            self.assume(st, t)
         check_inv(st, 'keep')
         check_frame_inv(st, 'keep')
         raise PathEnd()
